@@ -25,7 +25,7 @@ namespace RV.Props.ClosedLoopBG
 open RV.Arith IntOrPct RV.Traffic RV.ClosedLoopBG RV.Oracle.ClosedLoopBG RV.Lemmas.ClosedLoopBG
 open RV.ClosedLoop (CBr Label CS)
 open RV.CtlBlueGreen (Workload HPA maxReady)
-open RV.RolloutSM (World WL Sub StepResult reconcile inRolling handleFinalizer calculateStatus)
+open RV.RolloutSM (World WL Sub StepResult reconcile reconcileCore inRolling handleFinalizer calculateStatus)
 open RV.ExecutorX (bgPlane bgInfo mkInfo syncVia reconcileX_cases syncStatusX_val entryOf bgBR bgReady)
 open RV.Executor (BR Status Event syncDecide refreshStatus isPlanFinalizing isPlanChanged isPlanUnhealthy signalRecalculate resetStatus)
 
@@ -332,9 +332,10 @@ theorem bg_no_promotion_while_held (u : User) (s0 s s' : BS) (ls : List Label) (
     (`effSetting`), not paused, the update-strategy type, no control-info; and the partition is absent **or still the
     webhook's 100 %** (guard `csPartitionKept`: blue-green `Finalize` never clears it — `bg_settings_restored_full_FALSE_partition`).
 
-    partial: (a) that every *terminal* state has the annotation removed is not part of this theorem — it is false on the
-    unchanged code (`bg_settings_restored_full_FALSE_cursor`, finding `bgCursorCarried`) and would need the Rollout-side
-    clean-up invariant lifted to this loop; (b) the HPA target and the network objects are judged by the oracle
+    partial: (a) that every *terminal* state has the annotation removed is not part of this theorem — it was false before the
+    cursor reset in `Reconcile` (fixed finding `bgCursorCarried`; regression example `bg_settings_restored_cursor_reset`) and
+    needs the Rollout-side clean-up invariant lifted to this loop (judged by the oracle `settingsRestored` at full strength on the
+    walks of the real controllers); (b) the HPA target and the network objects are judged by the oracle
     `settingsRestored` on the walks of the real controllers (plane-level theorem: `RV.Props.CtlBlueGreen.finalize_restores_hpa`). -/
 theorem bg_settings_restored_partial (u : User) (s0 s : BS) (ls : List Label) (h0 : Init u s0) (hr : Reach s0 ls s)
     (wl : Workload) (hwl : s.world.wl = some wl) (hsaved : wl.saved = .none) :
@@ -472,11 +473,11 @@ theorem landRo_frame (s : BS) (v : RolloutSM.WL) (r : StepResult) (hv : bgView s
 
 /-- what a Rollout reconcile of a superseded blue-green rollout returns: the world it read, with another Rollout status whose
     step index, step state and Progressing reason are the old ones; the object stays -/
-theorem reconcile_superseded (w : World) (wl : WL) (os : Sub) (r : StepResult)
+theorem reconcile_superseded_core (w : World) (wl : WL) (os : Sub) (r : StepResult)
     (hph : w.ro.phase = .progressing) (hr : w.ro.reason = .inRolling) (hdel : w.ro.deleting = false)
     (hnp : w.ro.paused = false) (hbg : w.ro.style = .blueGreen) (hwl : w.wl = some wl) (hos : w.ro.sub = some os)
     (hne : os.canaryRev ≠ "") (hrev : wl.canaryRev ≠ os.canaryRev) (hnrb : wl.inRollback = false)
-    (h : reconcile w = .val r) :
+    (h : reconcileCore w = .val r) :
     r.w.wl = w.wl ∧ r.w.br = w.br ∧ r.w.net = w.net ∧ r.w.mem = w.mem ∧ r.roGone = false ∧ r.w.ro.reason = .inRolling ∧
     ∃ s', r.w.ro.sub = some s' ∧ s'.curIdx = os.curIdx ∧ s'.state = os.state := by
   have hgone : (handleFinalizer w.ro).2.1 = false := by
@@ -485,7 +486,7 @@ theorem reconcile_superseded (w : World) (wl : WL) (os : Sub) (r : StepResult)
   cases hc : wl.consistent with
   | false =>
     -- the workload status is not consistent: the reconcile only waits
-    unfold reconcile at h
+    unfold reconcileCore at h
     dsimp only at h
     have : calculateStatus (handleFinalizer w.ro).1 w.wl = none := by
       unfold calculateStatus
@@ -500,7 +501,7 @@ theorem reconcile_superseded (w : World) (wl : WL) (os : Sub) (r : StepResult)
     · rw [hfr]; exact hr
     · rw [hfr]; exact hos
   | true =>
-    obtain ⟨ns, s, hsame, hs, hcore, hreason, hrec⟩ := RV.Props.Reconcile.reconcile_inRolling w wl os hph hr hwl hc hos
+    obtain ⟨ns, s, hsame, hs, hcore, hreason, hrec⟩ := RV.Props.Reconcile.reconcile_inRolling_core w wl os hph hr hwl hc hos
     rw [hrec] at h
     have hbr : inRolling w w.ro ns s wl =
         .val { w := { w with ro := ns }, roGone := false, requeue := false, err := false, writes := [] } := by
@@ -516,6 +517,22 @@ theorem reconcile_superseded (w : World) (wl : WL) (os : Sub) (r : StepResult)
     subst h
     simp only [RV.Props.Reconcile.subCore, Prod.mk.injEq] at hcore
     exact ⟨rfl, rfl, rfl, rfl, hgone, by rw [hreason]; exact hr, s, hs, hcore.1, hcore.2.2.1⟩
+
+/-- the same of the whole reconcile (body + cursor reset: nothing in the statement reads the clean-up cursor) -/
+theorem reconcile_superseded (w : World) (wl : WL) (os : Sub) (r : StepResult)
+    (hph : w.ro.phase = .progressing) (hr : w.ro.reason = .inRolling) (hdel : w.ro.deleting = false)
+    (hnp : w.ro.paused = false) (hbg : w.ro.style = .blueGreen) (hwl : w.wl = some wl) (hos : w.ro.sub = some os)
+    (hne : os.canaryRev ≠ "") (hrev : wl.canaryRev ≠ os.canaryRev) (hnrb : wl.inRollback = false)
+    (h : reconcile w = .val r) :
+    r.w.wl = w.wl ∧ r.w.br = w.br ∧ r.w.net = w.net ∧ r.w.mem = w.mem ∧ r.roGone = false ∧ r.w.ro.reason = .inRolling ∧
+    ∃ s', r.w.ro.sub = some s' ∧ s'.curIdx = os.curIdx ∧ s'.state = os.state := by
+  obtain ⟨r0, h0, rfl⟩ := RolloutSM.reconcile_val h
+  obtain ⟨a1, a2, a3, a4, a5, a6, s', hs', b1, b2⟩ :=
+    reconcile_superseded_core w wl os r0 hph hr hdel hnp hbg hwl hos hne hrev hnrb h0
+  exact ⟨by rw [RolloutSM.resetOnExit_wl]; exact a1, by rw [RolloutSM.resetOnExit_br]; exact a2,
+    by rw [RolloutSM.resetOnExit_net]; exact a3, by rw [RolloutSM.resetOnExit_mem]; exact a4,
+    by rw [RolloutSM.resetOnExit_roGone]; exact a5, by rw [RolloutSM.resetOnExit_reason]; exact a6,
+    _, RolloutSM.resetOnExit_sub_some _ _ _ hs', b1, b2⟩
 
 /-- **`bg_refuses_continuous`, the Rollout controller** (C10) — for EVERY state (reachable or not): while the workload is on a
     revision newer than the one the blue-green rollout is releasing (and it is not the stable one: the user has not rolled back),
@@ -982,13 +999,23 @@ theorem bg_settings_restored_full_FALSE_partition :
        | some w => w.saved == .none && w.ctl == .none && w.minReadySeconds == 5 && w.partition == some (pct 100)
        | none => false)) = some true := by decide +kernel
 
-/-- **finding `bgCursorCarried` — `bg_settings_restored_full_FALSE_cursor`**: the Rollout is deleted while its success clean-up waits at
-    `ResumeWorkload` (the longest task: all pods have to be replaced).  The deletion sequence continues from that cursor:
-    `ResumeWorkload → ReleaseWorkloadControl → END`; what it has *before* `ResumeWorkload` in its own order — `RouteTrafficToStable`,
-    `RemoveCanaryService` — is never run.  The Rollout object is gone and the canary Ingress (weight 100) is still there. -/
-theorem bg_settings_restored_full_FALSE_cursor :
-    (bgRun exS0 (.release "v2" :: rounds 37 ++ [.delete] ++ rounds 8)).map (fun s =>
-      s.gone && terminal s && !settingsRestored exU s && s.br.isNone && s.net.canaryIng == some 100) = some true := by decide +kernel
+/-- **fixed finding `bgCursorCarried` — regression example `bg_settings_restored_cursor_reset`** (was the witness
+    `bg_settings_restored_full_FALSE_cursor` of the unrepaired code): the Rollout is deleted while its success clean-up waits at
+    `ResumeWorkload` (the longest task: all pods have to be replaced).  Before the repair the deletion sequence continued from that
+    cursor — `ResumeWorkload → ReleaseWorkloadControl → END` — and never ran what it has *before* `ResumeWorkload` in its own order
+    (`RouteTrafficToStable`, `RemoveCanaryService`): the Rollout object was gone and the canary Ingress (weight 100) still there.
+    With the cursor reset in `Reconcile` (`RV.RolloutSM.resetOnExit`) the reconcile that turns Progressing into Terminating clears the
+    cursor; the deletion sequence runs from its first task, and ten rounds later the Rollout is gone with everything restored. -/
+theorem bg_settings_restored_cursor_reset :
+    -- the cursor when the user deletes the Rollout, and after the first reconcile that sees the deletion
+    (bgRun exS0 (.release "v2" :: rounds 37)).map (fun s =>
+      s.ro.phase == .progressing && s.ro.reason == .finalising && s.ro.sub.map (·.finStep) == some .resumeWorkload) = some true ∧
+    (bgRun exS0 (.release "v2" :: rounds 37 ++ [.delete, .ro])).map (fun s =>
+      s.ro.phase == .terminating && s.ro.sub.map (·.finStep) == some .empty) = some true ∧
+    -- where the deletion ends
+    (bgRun exS0 (.release "v2" :: rounds 37 ++ [.delete] ++ rounds 10)).map (fun s =>
+      s.gone && terminal s && settingsRestored exU s && s.br.isNone && s.net.canaryIng.isNone && s.net.canarySvc.isNone) = some true := by
+  decide +kernel
 
 /-- **finding `bgRollbackNoSurge` — `bg_rollback_completes_full_FALSE`**: the user rolls back before the first pod of `v2` exists (the
     BatchRelease has just taken the CloneSet over).  No pod of another revision exists, so the finder reports no rollback
